@@ -341,6 +341,12 @@ class C14(F.Spec):
                 return p + self.cstr(rest) if b"\0" in rest else p
             m2 = bytes.fromhex(me["m2"])[:E - 1]
             pb = full(before)
+            # both forms carry sid=net: a password of any length (at, below and above the size of its field) leaves it alone
+            for which, rec in (("first", before), ("second", after)):
+                if self.cstr(self.fld(rec, "ssid")) != b"net":
+                    fs.append(F.Finding("neighbouring-field-changed", "after the %s form (sid=net and a password of %d characters) the network "
+                                        "name reads %r" % (which, len(pb), self.cstr(self.fld(rec, "ssid"))[:20])))
+                    break
             # the overflow part of a long password is a text setting of its own, stored behind the terminator of the address: what
             # stands there after the form was saved is terminated inside the field (readers look for the terminator there)
             mail_a = self.fld(after, "email")
@@ -403,11 +409,67 @@ class C14(F.Spec):
                     fs.append(F.Finding("absent-field-changed", "tm%d not in the request but the margin of shutter %d changed" % (idx, idx)))
         return fs
 
+    def flags_judge(self, exe, ops):
+        import common as C
+        o = self.offsets()
+        rc, lines, err = C.run_lines([exe], "\n".join(ops) + "\n")
+        if rc != 0:
+            return [F.Finding("crash", "form handler aborted (rc=%s): %s" % (rc, err[-600:]))]
+        recs = [bytes.fromhex(x.split()[1]) for x in lines if x.startswith("CFGREC ")]
+        if len(recs) != 2:
+            return []
+        before, after = (int.from_bytes(r[o["flags"]:o["flags"] + 4], "little") for r in recs)
+        req = bytes.fromhex(next(x for x in ops if x.startswith("seg ")).split()[1])
+        body = req[req.index(b"\r\n\r\n") + 4:]
+        fields = dict(kv.split(b"=", 1) for kv in body.split(b"&") if b"=" in kv)
+        want = before
+        if b"pro" in fields:
+            want = (want | 1) if fields[b"pro"][:1] == b"1" else (want & ~1)
+        if b"ret" in fields:
+            want = (want | 2) if fields[b"ret"][:1] == b"1" else (want & ~2)
+        if b"tls" in fields:
+            want = (want | 4) if fields[b"tls"][:1] == b"1" else (want & ~4)
+        if b"mau" in fields:
+            want = (want & ~8) if fields[b"mau"][:1] == b"1" else (want | 8)
+        if (after & 0x1f) != (want & 0x1f):
+            return [F.Finding("absent-field-changed", "flag bits %#x before, request fields %s: %#x expected (a bit whose field is absent keeps "
+                              "its value), %#x stored" % (before & 0x1f, sorted(k.decode() for k in fields), want & 0x1f, after & 0x1f))]
+        return []
+
+    def flags_family(self, tier, rng):
+        import common as C
+        try:
+            exe = C.build_driver("drv_form", "mqtt", extra_units=list(C.MQTT_UNITS), extra_flags=["-fwrapv", "-DMQTT_SUPPORT_ENABLED"])
+        except C.BuildError as e:
+            return [(F.Finding("crash", "the MQTT build of the form driver does not build: " + str(e)[-400:]), [])], 0
+        o = self.offsets()
+        n = 0
+        for i in range(24 if tier == "quick" else 200):
+            prev = rng.choice([0x07, 0x0f, 0x1f, 0x06, 0x09, 0x00, 0x01, rng.randrange(32)])
+            fl = [b"sid=net", b"wpw=secret", b"mvr=broker.example", b"usr=joe", b"pfx=home"]
+            for name in (b"pro", b"ret", b"tls", b"mau"):
+                if rng.random() < (.8 if name == b"pro" else .35):
+                    fl.append(name + b"=" + rng.choice([b"0", b"1", b"1"]))
+            rng.shuffle(fl)
+            req = b"POST / HTTP/1.1\r\n\r\n" + b"&".join(fl)
+            ops = ["set %d %s" % (o["flags"], prev.to_bytes(4, "little").hex()), "conn", "show", "seg " + req.hex(), "show"]
+            n += 1
+            f = self.flags_judge(exe, ops)
+            if f:
+                return [(f[0], ops)], n
+        return [], n
+
     def extra_findings(self, tier, rng):
         """segmentation at field boundaries gives the same record as the unsplit request"""
         import common as C
         fs = []
         ev = 0
+        # MQTT build: the flag bits (MQTT on, no-retain, TLS, no-auth, locked) belong to the fields pro / ret / tls / mau (locked to
+        # none): a bit whose field is not in the request keeps its value, a bit whose field is there gets the submitted one
+        f0, n0 = self.flags_family(tier, rng)
+        ev += n0
+        if f0:
+            return ev, 0, f0
         exe = self.driver_build()
         n = 30 if tier == "quick" else 300
         for i in range(n):
@@ -453,6 +515,12 @@ class C14(F.Spec):
         return ev, ev, fs
 
     def extra_replay(self, ops):
+        if ops and ops[0].startswith("set %d " % self.offsets()["flags"]) and len(ops) == 5:
+            import common as C
+            return self.flags_judge(C.build_driver("drv_form", "mqtt", extra_units=list(C.MQTT_UNITS), extra_flags=["-fwrapv", "-DMQTT_SUPPORT_ENABLED"]), ops)
+        return self._extra_replay_rest(ops)
+
+    def _extra_replay_rest(self, ops):
         """a replayed request in two segments is compared with the same bytes in one segment (head/body split only: cuts inside
         the body are the recorded finding segmentation-changes-result)"""
         import common as C
